@@ -68,7 +68,7 @@ impl<R: Read + Seek> ReadBox<&mut R> for TrakBox {
             // Get box header.
             let header = BoxHeader::read(reader)?;
             let BoxHeader { name, size: s } = header;
-            if s > size {
+            if s > size || s < HEADER_SIZE {
                 return Err(Error::InvalidData(
                     "trak box contains a box with a larger size than it",
                 ));
